@@ -3426,6 +3426,13 @@ impl LineBuf {
 				self.apply_motion(motion);
 			}
 			Verb::ReplaceCharInplace(ch,count) => {
+				// 'r' replaces characters of the cursor line only, and all of them or none
+				let left_on_line = (self.cursor.get()..self.cursor.max)
+					.take_while(|i| self.grapheme_at(*i).is_some_and(|gr| gr != "\n"))
+					.count();
+				if (count as usize) > left_on_line {
+					return Ok(())
+				}
 				for i in 0..count {
 					let mut buf = [0u8;4];
 					let new = ch.encode_utf8(&mut buf);
@@ -3439,30 +3446,30 @@ impl LineBuf {
 				}
 			}
 			Verb::ToggleCaseInplace(count) => {
+				// '~' goes over `count` characters of the cursor line and switches the case of the letters
+				// among them
 				for i in 0..count {
 					let Some(gr) = self.grapheme_at_cursor() else {
-						return Ok(())
+						break
 					};
-					if gr.len() > 1 || gr.is_empty() {
-						return Ok(())
-					}
-					let ch = gr.chars().next().unwrap();
-					if !ch.is_alphabetic() {
-						return Ok(())
-					}
-					let mut buf = [0u8;4];
-					let new = if ch.is_ascii_lowercase() {
-						ch.to_ascii_uppercase().encode_utf8(&mut buf)
-					} else {
-						ch.to_ascii_lowercase().encode_utf8(&mut buf)
-					};
-					self.replace_at_cursor(new);
-
-					// try to increment the cursor until we are on the last iteration
-					// or until we hit the end of the buffer
-					if i != count.saturating_sub(1) && !self.cursor.inc() {
+					if gr == "\n" {
 						break
 					}
+					let ch = gr.chars().next().unwrap();
+					if gr.len() == 1 && ch.is_alphabetic() {
+						let mut buf = [0u8;4];
+						let new = if ch.is_ascii_lowercase() {
+							ch.to_ascii_uppercase().encode_utf8(&mut buf)
+						} else {
+							ch.to_ascii_lowercase().encode_utf8(&mut buf)
+						};
+						self.replace_at_cursor(new);
+					}
+					let next = self.cursor.get() + 1;
+					if i == count.saturating_sub(1) || self.grapheme_at(next).is_none_or(|gr| gr == "\n") {
+						break
+					}
+					self.cursor.set(next);
 				}
 			}
 			Verb::ToggleCaseRange => {
@@ -3488,6 +3495,17 @@ impl LineBuf {
 					};
 					self.replace_at(i,new);
 				}
+				// like the other operators, leave the cursor at the start of the text worked on
+				// (whole lines: where the motion goes, if that is before the cursor)
+				match motion {
+					MotionKind::LineOffset(_) => {}
+					MotionKind::InclusiveWithTargetCol(_,pos) => {
+						if pos < self.cursor.get() {
+							self.cursor.set(pos);
+						}
+					}
+					_ => { self.cursor.set(start); }
+				}
 			}
 			Verb::ToLower => {
 				let Some((start,end)) = self.range_from_motion(&motion) else {
@@ -3512,6 +3530,17 @@ impl LineBuf {
 					};
 					self.replace_at(i,new);
 				}
+				// like the other operators, leave the cursor at the start of the text worked on
+				// (whole lines: where the motion goes, if that is before the cursor)
+				match motion {
+					MotionKind::LineOffset(_) => {}
+					MotionKind::InclusiveWithTargetCol(_,pos) => {
+						if pos < self.cursor.get() {
+							self.cursor.set(pos);
+						}
+					}
+					_ => { self.cursor.set(start); }
+				}
 			}
 			Verb::ToUpper => {
 				let Some((start,end)) = self.range_from_motion(&motion) else {
@@ -3535,6 +3564,17 @@ impl LineBuf {
 						ch.encode_utf8(&mut buf)
 					};
 					self.replace_at(i,new);
+				}
+				// like the other operators, leave the cursor at the start of the text worked on
+				// (whole lines: where the motion goes, if that is before the cursor)
+				match motion {
+					MotionKind::LineOffset(_) => {}
+					MotionKind::InclusiveWithTargetCol(_,pos) => {
+						if pos < self.cursor.get() {
+							self.cursor.set(pos);
+						}
+					}
+					_ => { self.cursor.set(start); }
 				}
 			}
 			Verb::Redo |
